@@ -41,17 +41,19 @@ func contract_checkInitialized(m protoreflect.Message) (err error) {
 
 // The reflection decoder. Its callers must establish the protocol preconditions (C06, C07, C10).
 // Its own tag loop: an unknown field is kept exactly when DiscardUnknown is not set, by extending
-// the message's existing unknown bytes with the field's tag and value (C09); the list, map and
+// the message's existing unknown bytes with the field's tag and value (C09) - the stored value is
+// that buffer extended in place or a fresh one, never a view of the input (C14); the list, map and
 // singular decoders it calls are abstracted (their reported lengths are trusted to lie within
 // their input).
 //
-// @ props C06 C07 C09 C10
+// @ props C06 C07 C09 C10 C14
 // @ mode int
 // @ nopanic
 // @ guard-errors
 // @ pure protoreflect.Message.GetUnknown
 // @ callsite m.SetUnknown: !o.DiscardUnknown && len(arg[protoreflect.RawFields](0)) == len(m.GetUnknown())+tagLen+valLen
 // @ callsite m.SetUnknown: len(arg[protoreflect.RawFields](0)) >= len(m.GetUnknown())
+// @ callsite m.SetUnknown: freshSlice(arg[protoreflect.RawFields](0)) || sameArray(arg[protoreflect.RawFields](0), m.GetUnknown())
 // @ site b = b[tagLen+valLen:]: 0 <= tagLen && 0 <= valLen && tagLen+valLen <= len(b)
 func contract_UnmarshalOptions_unmarshalMessageSlow(o UnmarshalOptions, b []byte, m protoreflect.Message) (err error) {
 	requires(o.Merge)
